@@ -19,6 +19,7 @@ func init() {
 	env.Register("C14_Sync", C14_Sync)
 	env.Register("C14_MainLoop", C14_MainLoop)
 	env.Register("C13_CommitThenPrepared", C13_CommitThenPrepared)
+	env.Register("C14_SyncDuringProposal", C14_SyncDuringProposal)
 }
 
 type c13Obs struct {
@@ -421,4 +422,44 @@ func C13_CommitThenPrepared() {
 	if v, ok := wd.termPrepared(); ok && v == 1 {
 		env.Reach("C13.ctp.prepared_in_view1")
 	}
+}
+
+// C14_SyncDuringProposal: the node is the first leader of height 1 and its worker is inside a long
+// RequestNewBlockProposal (an SPI call that waits on its context). Meanwhile the real main loop handles first a
+// STALE UpdateState (a block below the current height, optional) and then UpdateState(block b >= 1). The context the
+// worker waits on must be cancelled by the newest sync, the stale one must change nothing, and when the SPI call
+// returns the worker takes the sync and moves to height b+1 without having proposed.
+func C14_SyncDuringProposal() {
+	wd := newWorldStopped(0, equalWeights(4))
+	n := wd.n
+	n.commitErr = false
+	b := env.NondetU64("sync_h")
+	env.Assume(b >= 1 && b < 1<<62)
+	staleFirst := env.NondetBool("stale_sync_first")
+	parked := -1
+	released := false
+	n.bu.Interfere = func(ctx context.Context, where string) {
+		if where != "RequestNewBlockProposal" || parked != -1 {
+			return
+		}
+		if staleFirst {
+			env.ChanOffer(n.m.mainUpdateStateChannel, &blockWithProof{block: nil}) // height 0: stale
+		}
+		env.ChanOffer(n.m.mainUpdateStateChannel, &blockWithProof{block: &stub.Block{H: primitives.BlockHeight(b)}})
+		parked = env.RunUntilParked(func() { n.m.run(context.Background()) })
+		released = ctx.Err() != nil
+	}
+	n.start(nil, nil, true)
+	env.Assert("C14.setup.mainloop_parked", parked == 2)
+	env.Assert("C14.long_spi_released_by_newest_sync", released)
+	env.Assert("C14.all_updates_received", env.ChanPending(n.m.mainUpdateStateChannel) == 0)
+	for _, s := range n.comm.Out {
+		_, isPP := s.Msg.(*interfaces.PreprepareMessage)
+		env.Assert("C15.spi.no_send_after_cancel", !isPP)
+	}
+	for env.ChanBuffered(n.m.worker.workerUpdateStateChannel) > 0 {
+		n.m.worker.handleUpdateState(<-n.m.worker.workerUpdateStateChannel)
+	}
+	env.Assert("C14.sync_takes_effect", uint64(n.m.state.Height()) == b+1)
+	env.Reach("C14.sync_during_proposal")
 }
